@@ -255,12 +255,15 @@ impl Check for Positions {
     }
 }
 
+pub const E2E: super::e2e::EndToEnd = super::e2e::EndToEnd { part: "end-to-end-binary-vs-handler", methods: &["textDocument/completion"] };
+
 pub fn checks() -> Vec<Box<dyn Check>> {
-    vec![Box::new(Positions)]
+    vec![Box::new(Positions), Box::new(E2E)]
 }
 
 pub fn run(ctx: &Ctx) -> i32 {
-    let parts = vec![crate::corpus_part(ctx, &checks()), run_pbt(ctx, &Positions, ctx.n(40_000, 600_000))];
+    let mut parts = vec![crate::corpus_part(ctx, &checks()), run_pbt(ctx, &Positions, ctx.n(40_000, 600_000))];
+    parts.push(run_pbt(ctx, &E2E, ctx.n(400, 8_000)));
     finish(
         ctx,
         parts,
